@@ -33,6 +33,7 @@ type stableG struct {
 	parent  int
 	states  []string // acceptable state texts (Go releases differ)
 	fn      string   // function the goroutine is parked in
+	creator string   // creating function ("" = (*workload).spawnStable)
 	locked  bool
 	elided  bool
 	release func()
@@ -144,6 +145,11 @@ type pairArg struct{ a, b int }
 //go:noinline
 func parkGeneric[T any](v T, ch chan int, ready chan<- int) { ready <- goid(); <-ch; _ = v }
 
+// spawnGeneric is the common creator (one go statement) of all parkGeneric goroutines.
+//
+//go:noinline
+func spawnGeneric[T any](v T, ch chan int, ready chan<- int) { go parkGeneric(v, ch, ready) }
+
 // spawnStable starts one registered goroutine; it is the "created by" function of all of them.
 //
 //go:noinline
@@ -195,11 +201,13 @@ func (w *workload) spawnStable(kind string) *stableG {
 		s.release = func() { close(ch) }
 	case "generic1":
 		s.fn, s.states = "parkGeneric[...]", []string{"chan receive"}
-		go parkGeneric(pairArg{1, 2}, ch, ready)
+		s.creator = "spawnGeneric[...]"
+		spawnGeneric(pairArg{1, 2}, ch, ready)
 		s.release = func() { close(ch) }
 	case "generic2":
 		s.fn, s.states = "parkGeneric[...]", []string{"chan receive"}
-		go parkGeneric(7, ch, ready)
+		s.creator = "spawnGeneric[...]"
+		spawnGeneric(7, ch, ready)
 		s.release = func() { close(ch) }
 	case "nilchan":
 		s.fn, s.states = "parkNilChan", []string{"chan receive (nil chan)"}
@@ -365,8 +373,12 @@ func c20Library(w *workload) (states map[string]bool, n int, err error) {
 		if s.elided != g.Stack.Elided {
 			return nil, 0, fmt.Errorf("goroutine %d (%s): elided=%v with %d frames", s.id, s.kind, g.Stack.Elided, len(g.Stack.Calls))
 		}
-		if len(g.CreatedBy.Calls) != 1 || g.CreatedBy.Calls[0].Func.Name != "(*workload).spawnStable" {
-			return nil, 0, fmt.Errorf("goroutine %d: creator %+v, want (*workload).spawnStable", s.id, g.CreatedBy.Calls)
+		wantCreator := "(*workload).spawnStable"
+		if s.creator != "" {
+			wantCreator = s.creator
+		}
+		if len(g.CreatedBy.Calls) != 1 || g.CreatedBy.Calls[0].Func.Name != wantCreator {
+			return nil, 0, fmt.Errorf("goroutine %d: creator %+v, want %s", s.id, g.CreatedBy.Calls, wantCreator)
 		}
 		if want := fmt.Sprintf(" in goroutine %d", s.parent); !strings.HasSuffix(g.CreatedBy.Calls[0].Func.Complete, want) {
 			return nil, 0, fmt.Errorf("goroutine %d: creator reference %q lacks %q", s.id, g.CreatedBy.Calls[0].Func.Complete, want)
